@@ -317,6 +317,22 @@ type CallRec struct {
 	BufEnd   int    // offset in Buf of the end of the reply when BufUsed
 	Buf      []byte // the caller-supplied buffer (full capacity)
 	Sentinel bool   // reply object still held the sentinel after a failure
+	// asynchronous forms: the Done channel (with spare room) and the call, kept
+	// so that a later second signal or a rewritten Error can be seen
+	Done chan *rpc.Call
+	Call *rpc.Call
+}
+
+// LateSignals reports how many further completions arrived on the call's
+// Done channel after the first one, and whether its Error changed since.
+func (rec *CallRec) LateSignals() (extra int, errChanged bool) {
+	if rec.Done != nil {
+		extra = len(rec.Done)
+	}
+	if rec.Call != nil && rec.Call.Error != rec.Err {
+		errChanged = true
+	}
+	return
 }
 
 // Sentinel is put into reply objects before a call so that a failed call can
@@ -363,13 +379,17 @@ func Do(c Caller, form, codec, method string, spec svc.Spec, bufCap int, opt *Do
 	case FormCall:
 		rec.Err = c.Call(method, inObj, outObj)
 	case FormGo:
-		call := c.Go(method, inObj, outObj, make(chan *rpc.Call, 1))
-		<-call.Done
+		rec.Done = make(chan *rpc.Call, 4)
+		call := c.Go(method, inObj, outObj, rec.Done)
+		<-rec.Done
+		rec.Call = call
 		rec.Err = call.Error
 	case FormRoundTrip:
-		call := &rpc.Call{ServiceMethod: method, Args: inObj, Reply: outObj, Done: make(chan *rpc.Call, 1)}
+		rec.Done = make(chan *rpc.Call, 4)
+		call := &rpc.Call{ServiceMethod: method, Args: inObj, Reply: outObj, Done: rec.Done}
 		c.RoundTrip(call)
-		<-call.Done
+		<-rec.Done
+		rec.Call = call
 		rec.Err = call.Error
 	case FormCtx:
 		rec.Err = c.CallWithContext(ctx, method, inObj, outObj)
@@ -422,6 +442,9 @@ func (rec *CallRec) CanaryIntact(encLen int) (bool, int) {
 	}
 	return true, -1
 }
+
+// EncodedLenFor returns the encoded length of an n-byte payload.
+func EncodedLenFor(codec string, n int) int { return EncodedLen(codec, make([]byte, n)) }
 
 // EncodedLen returns the length of payload when encoded by the body codec.
 func EncodedLen(codec string, payload []byte) int {
